@@ -1222,3 +1222,104 @@ var ruleCmpNorm = &Rule{
 }
 
 func init() { register(ruleCmpNorm) }
+
+// --- R-EXACTCMP: an integer operand is not compared through a double alone ------------------------
+
+// intOperandOrigin: v is an integer operand of the comparison as it was given
+// (a parameter, an asserted interface value, the result of a parse), not a
+// value obtained by converting a double (which converts back exactly).
+func intOperandOrigin(v ssa.Value, depth int) bool {
+	if depth > 6 {
+		return false
+	}
+	switch x := v.(type) {
+	case *ssa.Parameter, *ssa.TypeAssert:
+		return true
+	case *ssa.Extract:
+		switch x.Tuple.(type) {
+		case *ssa.TypeAssert, *ssa.Call:
+			return true
+		}
+	case *ssa.Call:
+		return true
+	case *ssa.Phi:
+		for _, e := range x.Edges {
+			if intOperandOrigin(e, depth+1) {
+				return true
+			}
+		}
+	case *ssa.ChangeType:
+		return intOperandOrigin(x.X, depth+1)
+	}
+	return false
+}
+
+var ruleExactCmp = &Rule{
+	Name: "R-EXACTCMP", NeedSSA: true,
+	Doc: "in the numeric comparison (the func(any, any) int of package exec and the package functions it reaches), wherever an int64 operand is converted to float64, the region that conversion dominates uses the integer in some other way as well (an integer comparison, a call receiving it): an arm that only ever looks at float64(i) cannot tell 2^53 from 2^53+1, so the order is not by value and not transitive across int64, float64 and json.Number",
+	Run: func(p *Prog) *RuleOut {
+		out := newOut("R-EXACTCMP")
+		n, ncmp := 0, 0
+		isAny := func(t types.Type) bool {
+			it, ok := t.Underlying().(*types.Interface)
+			return ok && it.NumMethods() == 0
+		}
+		for _, fn := range p.execFuncs() {
+			sig := fn.Signature
+			if sig.Recv() != nil || sig.Params().Len() != 2 || sig.Results().Len() != 1 || !isAny(sig.Params().At(0).Type()) || !isAny(sig.Params().At(1).Type()) {
+				continue
+			}
+			if b, ok := sig.Results().At(0).Type().Underlying().(*types.Basic); !ok || b.Kind() != types.Int {
+				continue
+			}
+			reach := p.reachFrom([]*ssa.Function{fn})
+			ncmp++
+			ord := ordinals{}
+			for _, f := range moduleFuncs(reach.Set) {
+				if fnPkgPath(f) != pkgExec {
+					continue
+				}
+				for _, b := range f.Blocks {
+					for _, ins := range b.Instrs {
+						cv, ok := ins.(*ssa.Convert)
+						if !ok || !isInt64(cv.X.Type()) || !isFloat64(cv.Type()) || !intOperandOrigin(cv.X, 0) {
+							continue
+						}
+						n++
+						key := fmt.Sprintf("%s: int64 operand compared as a double #%d", fnName(f), ord.next(fnName(f)))
+						other := ""
+						for _, r := range *cv.X.Referrers() {
+							if r == ssa.Instruction(cv) {
+								continue
+							}
+							if _, dbg := r.(*ssa.DebugRef); dbg {
+								continue
+							}
+							rb := r.Block()
+							if rb == nil {
+								continue
+							}
+							if (rb == b && instrIndex(b, r) > instrIndex(b, cv)) || (rb != b && b.Dominates(rb)) {
+								other = p.pos(r.Pos())
+							}
+						}
+						if other != "" {
+							out.ok(key, p.pos(cv.Pos()), fnName(f), "the integer itself is also examined after the conversion (at "+other+")")
+						} else {
+							out.viol(key, p.pos(cv.Pos()), fnName(f), "from here on the integer is only seen as float64(i): 2^53 and 2^53+1 become the same operand, so an int64 compares equal to a double it differs from, and ==/< are not transitive across the numeric representations")
+						}
+					}
+				}
+			}
+		}
+		out.Counts["int_to_double_conversions_in_comparisons"] = n
+		out.Counts["numeric_comparison_functions"] = ncmp
+		out.Floors["numeric_comparison_functions"] = 1
+		if n == 0 && ncmp > 0 {
+			out.ok("no int64 operand is compared as a double", "path/exec", "", fmt.Sprintf("%d numeric comparison function(s) and what they reach: no int64 operand is converted to float64", ncmp))
+		}
+		return out
+	},
+}
+
+func init() { register(ruleExactCmp) }
